@@ -8,6 +8,21 @@ def check(ctx):
     check_df_wrapper(ctx, "df_detrend", "polynomial_detrend", "R2-per-column-on-a-copy")
     check_integral_rms(ctx)
     check_get_rms(ctx)
+    # none of the DSP helpers writes into an array it was handed (np.asarray does not copy an ndarray)
+    from ..effects import Effects
+    E = Effects(ctx.repo)
+    for fname in ("polynomial_detrend", "integral_rms", "crop_data", "df_detrend"):
+        key = f"{DSP}::{fname}"
+        if not ctx.repo.has(key): continue
+        sm = E.summary(key); ctx.analysed(key)
+        where = ctx.repo.where(key, ctx.repo.get(key))
+        bad = [sm["params"][i] for i in sorted(sm["writes_param"]) if not (fname == "df_detrend" and sm["params"][i] == "df")]
+        if bad:
+            sk = sm["sinks"][sm["params"].index(bad[0])][0]
+            ctx.violated("R5-arguments-untouched", key, f"{fname} modifies its argument '{bad[0]}' in place ({sk.kind}: {sk.detail}): the caller's array changes, so a second call with the "
+                         "same object (e.g. the same band on another spectrum) gives a different result", f"{DSP}:{getattr(sk.node, 'lineno', 0)}")
+        else:
+            ctx.holds("R5-arguments-untouched", key, "no in-place effect reaches an argument", where)
     ctx.trust("np.polyfit / np.polyval are least-squares fit and evaluation", "scipy cumulative_trapezoid(y, x, initial=0)[-1] is the trapezoid integral of y over x",
               "L7: the residual of a least-squares fit is orthogonal to the fitted basis")
     ctx.assume("exact arithmetic: orthogonality / idempotence to rounding and the Parseval link are not decided")
